@@ -303,7 +303,30 @@ def eval_case(c):
                         V('new-config-argument-mutated', f'build_from_world({nm!r}) mutated its nested new_config argument')
                     if oc != w.config:
                         V('old-world-config-mutated', f'build_from_world({nm!r}, layer override) mutated the old world\'s config')
-        obs = {'shipped_worlds_built': done}
+        # a configuration change applied to a live world (edit config, reinit()): where reinit() succeeds, the re-initialised world must satisfy
+        # the same bookkeeping as a freshly built one (worlds whose reinit() raises on the unchanged tree are only noted)
+        reinit_done, reinit_raised = [], []
+        for nm in done:
+            w2 = guarded(bw, f'build_world({nm!r}) for the reinit probe', nm)
+            if w2 is None or not getattr(w2, 'layers', None):
+                continue
+            cands = [l_ for l_ in w2.layers if l_.config.get('density') is not None]
+            if not cands:
+                continue
+            tgt = cands[int(rng.integers(len(cands)))]
+            fac_ = float(rng.uniform(0.7, 1.4))
+            tgt.config['density'] = float(tgt.config['density']) * fac_
+            try:
+                w2.reinit()
+            except Exception as ex:
+                reinit_raised.append(f'{nm}: {type(ex).__name__}')
+                continue
+            reinit_done.append(nm)
+            _state['evals'] += 1
+            iss = geometry_issues(w2)
+            if iss:
+                V('post-condition-geometry-after-reinit', f'{nm}: after scaling the density of layer {tgt.name} by {fac_:.3f} and calling reinit(): ' + '; '.join(iss)[:400])
+        obs = {'shipped_worlds_built': done, 'reinit_probe_done': reinit_done, 'reinit_probe_raised': reinit_raised}
     elif c['kind'] == 'random':
         rng = np.random.default_rng([c['seed'], 16, 100 + c['sub']])
         cfg = random_config(rng, f'rand{c["sub"]}')
